@@ -18,7 +18,7 @@ def main():
     d = os.path.abspath(sys.argv[1])
     meta = json.load(open(os.path.join(d, 'meta.json')))
     pid = meta['property']
-    checks = sys.argv[2:] if len(sys.argv) > 2 and not sys.argv[2].startswith('--') else [pid]
+    checks = [a for a in sys.argv[2:] if not a.startswith('--')] or [pid]
     if REPO != '/repo':
         if not os.path.exists(REPO):
             sh('git -C /repo worktree add --detach %s HEAD' % REPO)
@@ -41,6 +41,9 @@ def main():
         if os.path.exists(demo):
             rc, out = sh('sh %s %s' % (demo, ucg), d, timeout=600)
             res['demo_with_change_rc'] = rc
+        if '--confirm' in sys.argv:
+            rc, out = sh('CARGO_TARGET_DIR=/scratch/seedrun_target cargo test --workspace --no-fail-fast --offline 2>&1 | grep -E "^test result" | head -1', REPO, timeout=3600)
+            res['test_suite_with_change'] = out.strip()
         for c in checks:
             for tier in ('quick', 'thorough'):
                 t0 = time.time()
@@ -49,6 +52,11 @@ def main():
                 res['%s_%s' % (c, tier)] = dict(rc=rc, lines=[l[:400] for l in lines], wall=round(time.time() - t0, 1))
     finally:
         sh('git checkout -- . && git clean -fdq src', REPO)
+    if '--confirm' in sys.argv and os.path.exists(os.path.join(d, 'demo.sh')):
+        env = dict(os.environ, VERIF_REPO=REPO)
+        rc, out = sh('python3 -c "import sys; sys.path.insert(0, \'%s/replay\'); import realcode; print(realcode.ucg_binary())"' % VERIF, VERIF, env=env)
+        rc, out = sh('sh %s %s' % (os.path.join(d, 'demo.sh'), out.strip().split('\n')[-1]), d, timeout=600)
+        res['demo_without_change_rc'] = rc
     print(json.dumps(res, indent=1))
     json.dump(res, open(os.path.join(d, 'check_result.json'), 'w'), indent=1)
     return 0
